@@ -10,6 +10,7 @@ import (
 	"hash/fnv"
 	"io"
 	"math/rand/v2"
+	"os"
 	"runtime/debug"
 	"sort"
 	"strings"
@@ -65,17 +66,18 @@ type Violation struct {
 
 // BatchResult is what a worker process observed on cases [From,To).
 type BatchResult struct {
-	Prop         string           `json:"prop"`
-	From, To     int              `json:"-"`
-	Evaluations  int64            `json:"evaluations"`
-	Nontrivial   []uint64         `json:"nontrivial"` // hashes of distinct non-trivial keys
-	Counters     map[string]int64 `json:"counters"`
-	Samples      []any            `json:"samples"`
-	Violations   []Violation      `json:"violations"`
-	Inconclusive map[string]int64 `json:"inconclusive"`
-	Digests      []string         `json:"digests,omitempty"` // per-case digest (cross-process determinism)
-	Done         bool             `json:"done"`
-	MaxSteps     int64            `json:"max_steps"`
+	Prop         string            `json:"prop"`
+	From, To     int               `json:"-"`
+	Evaluations  int64             `json:"evaluations"`
+	Nontrivial   []uint64          `json:"nontrivial"` // hashes of distinct non-trivial keys
+	Counters     map[string]int64  `json:"counters"`
+	Samples      []any             `json:"samples"`
+	Violations   []Violation       `json:"violations"`
+	Inconclusive map[string]int64  `json:"inconclusive"`
+	Digests      []string          `json:"digests,omitempty"` // per-case digest (cross-process determinism)
+	Audit        []json.RawMessage `json:"audit,omitempty"`   // sampled (input, model verdict) records for the python audit
+	Done         bool              `json:"done"`
+	MaxSteps     int64             `json:"max_steps"`
 
 	nt map[uint64]struct{}
 }
@@ -144,6 +146,20 @@ func (c *Case) Sample(v any) {
 }
 
 func (c *Case) Inconclusive(reason string) { c.B.Inconclusive[reason]++ }
+
+// AuditSample keeps a bounded sample of (input, model verdict) records; the driver hands them to
+// oracle/audit.py (python jsonschema) in the thorough tier to audit the reference model.
+func (c *Case) AuditSample(v any) {
+	if c.Tier != Thorough && os.Getenv("VERIF_AUDIT") == "" {
+		return
+	}
+	if len(c.B.Audit) >= 60 {
+		return
+	}
+	if data, err := json.Marshal(v); err == nil && len(data) < 20000 {
+		c.B.Audit = append(c.B.Audit, data)
+	}
+}
 
 // Violation records a refuting observation with a self-contained witness.
 func (c *Case) Violation(what string, witness any) {
